@@ -25,7 +25,7 @@ def run(rep):
     results = base.run_obligations(rep, obls)
     cands = [c for x in results for c in x["cands"]]
     ims_open = any((x["cands"] or x["inconclusive"]) for x in results if x.get("fn") == "imsaak")
-    if ims_open and not cands:
+    if (ims_open or not quick) and not cands:
         pp.imsaak_grid(rep)      # an undecided get_imsaak obligation (e.g. changed signature): let the public-API judge look
     if cands:
         ok = pp.confirm_kadj(rep, results, None)
